@@ -370,6 +370,19 @@ func monitor(s *vdrv.Scenario, h *vdrv.History, fin string, aborted string) stri
 	if initNumCPU != runtime.NumCPU() {
 		return fmt.Sprintf("the default worker count computed at package init is %d, documented (and required for the cap of a default pool): runtime.NumCPU() = %d", initNumCPU, runtime.NumCPU())
 	}
+	// expansion is temporary by IDLE time: every time an expanded worker arms its idle timer (at its start and after each
+	// task) it is for the configured ExpandedLifetime (default: one minute) - wall-clock time decides nothing else
+	want := vtime.Duration(s.OptInt("lifetime", 0))
+	if want <= 0 {
+		want = vtime.Minute
+	}
+	for _, t := range vtime.All() {
+		for _, d := range t.Arms {
+			if d != want {
+				return fmt.Sprintf("an expanded worker armed its idle timer with %v: an expanded worker exits after being idle for ExpandedLifetime = %v (requires a full lifetime after every task)", d, want)
+			}
+		}
+	}
 	// a pool without expansion that was never started executes nothing: a task that was accepted into its queue can
 	// only be released by Stop, with the pool context's error (its own context's error would say it was refused)
 	if !in.started && in.limit == 0 {
